@@ -132,6 +132,20 @@ func init() {
 					resp[i] = MkMsg(msgAlphabet[v-1])
 				}
 			}
+			// fields the schema does not know (a newer client or server): carried through wherever
+			// both legs speak the binary codec
+			if b.ClientCodec == "proto" && inStrs("proto", b.TgtCodecs) && !isREST && b.expectedServerProtocol() != vanguard.ProtocolREST && c.Choose("unknown-fields", 2) == 1 {
+				// (JSON has no place for them: toward or from a JSON leg they are dropped, which is not judged)
+				raw := []byte{0x98, 0x06, 0x07, 0xC2, 0xA9, 0x07, 0x03, 'x', 'y', 'z'} // field 99 = varint 7, field 15000 = "xyz"
+				for _, list := range [][]proto.Message{req, resp} {
+					for i, m := range list {
+						m = proto.Clone(m)
+						m.ProtoReflect().SetUnknown(raw)
+						list[i] = m
+					}
+				}
+				c.Attr("~unknown-fields", "true")
+			}
 			accept := [][]string{{"gzip"}, nil, {"rev", "gzip"}, {"gzip", "rev", "br"}}[c.Choose("accept", 4)]
 			respComp := []string{"auto", ""}[c.Choose("resp-compression", 2)]
 			var respFlags []bool
